@@ -236,7 +236,7 @@ def _cmp(got, exp, what, loose, ctx):
     r = frames_eq.frames_equal(got[hard], exp[hard], check_dtype=not loose, check_categories=strict)
     if r:
         raise _Viol(r[0], "%s: %s" % (what, r[1]))
-    r = frames_eq.frames_equal(got[soft], exp[soft], check_dtype=False, check_categories=False, check_index=False)
+    r = frames_eq.frames_equal(got[soft], exp[soft], check_dtype=False, check_categories=False, loose_numbers=True, check_index=False)
     if r:
         raise _Viol(r[0], "%s: %s" % (what, r[1]))
 
